@@ -20,9 +20,17 @@
 #include <iora/core/logger.hpp>
 
 #include <algorithm>
+#include <atomic>
+#include <condition_variable>
+#include <mutex>
+#include <thread>
 #include <cstring>
 #include <deque>
 #include <memory>
+
+// schedule perturbation (harness/c03_sched.cpp); absent in TSan builds
+extern "C" void c03_sched_enable(std::uint64_t seed) __attribute__((weak));
+extern "C" void c03_sched_disable() __attribute__((weak));
 
 namespace net = iora::network;
 using fakeeng::FakeEngine;
@@ -212,6 +220,12 @@ static void runSequential(pbt::Case &c, std::size_t cap, unsigned nsess, std::si
   const bool knownS2 = pbt::isKnown("C03/switch-to-async-leaves-buffered-bytes");
 
   pbt::Fmt desc;
+  struct DescribeAtExit
+  {
+    pbt::Case &c;
+    pbt::Fmt &d;
+    ~DescribeAtExit() { c.describe(d.str()); }
+  } describeAtExit{c, desc};
   desc << "cap=" << cap << " sessions=" << nsess << " gc=" << gcThr << " ops:";
   bool sawSwitch = false, sawClose = false, sawOverflowNonEmpty = false, sawFlush = false;
   bool sawPartial = false, sawLate = false, sawStickyRepeat = false, sawEof = false, sawDisabledDrop = false;
@@ -376,8 +390,9 @@ static void runSequential(pbt::Case &c, std::size_t cap, unsigned nsess, std::si
     }
     else if (op < 14) // ------------------------------------------------------ Receive
     {
-      static const std::size_t lens[] = {0, 1, 2, 3, 5, 7, 8, 9, 16, 63, 64, 65, 100, 1000, 1 << 20};
+      static const std::size_t lens[] = {0, 1, 2, 3, 5, 7, 8, 9, 16, 63, 64, 65, 100, 1000, 5000};
       std::size_t bufLen = lens[static_cast<std::size_t>(row[2]) % (sizeof lens / sizeof lens[0])];
+      if (row[3] % 16 == 0 && m.buf.size() > 5000) bufLen = 1u << 20; // larger than anything buffered
       if (!receiveStep(k, bufLen, "R")) return;
     }
     else if (op < 19) // ------------------------------------------------------ SetMode
@@ -484,7 +499,6 @@ static void runSequential(pbt::Case &c, std::size_t cap, unsigned nsess, std::si
       return;
     }
   }
-  c.describe(desc.str());
   if (sawSwitch) c.label("mode switch");
   if (sawFlush) c.label("flush with buffered bytes");
   if (sawClose) c.label("close with buffered bytes");
@@ -511,6 +525,720 @@ PBT_PROPERTY(seq)
   std::size_t gcThr = src.coin(1, 4) ? 0 : 1024;
   auto ops = src.rows(60, 4, 0, 65535);
   runSequential(c, cap, nsess, gcThr, ops, src.coin(3, 4));
+}
+
+
+// =========================================================================== conc
+namespace
+{
+
+struct ConcPlan
+{
+  int variant = 0; // 0 sync-only lossless, 1 sync/async switches lossless, 2 small cap (overflow), 3 with Disabled
+  std::size_t cap = 1u << 20;
+  struct Io
+  {
+    unsigned delayUs;
+    std::size_t len;
+  };
+  std::vector<Io> io;
+  bool close = false;
+  unsigned closeDelayUs = 0;
+  struct App
+  {
+    int kind; // 0 receive, 1 setmode, 2 pause
+    std::size_t len;
+    unsigned tmoMs;
+    ReadMode mode;
+    unsigned pauseUs;
+  };
+  std::vector<App> app;
+  bool startSync = true;
+  bool closeAfterParked = false; // the close is held back until the application parks in its final receive
+  std::uint64_t perturbSeed = 0; // != 0: seeded yields/sleeps at mutex operations of both threads
+  unsigned flushCbDelayUs = 0;   // the application's data callback is slow when it runs on the application
+                                 // thread (i.e. during a flush): widens the flush window for arrivals
+};
+
+struct Handed
+{
+  bool viaCb;
+  std::string bytes;
+};
+
+} // namespace
+
+static void runConcurrent(pbt::Case &c, const ConcPlan &p)
+{
+  pbt::watchdog(60, "C03/conc-case-stuck");
+  quietLogs();
+  net::TransportConfig cfg;
+  cfg.maxSyncReceiveBuffer = p.cap;
+  auto e = std::make_unique<FakeEngine>();
+  FakeEngine *eng = e.get();
+  auto tr = net::test::TransportEngineInjector::withEngine(std::move(e), cfg);
+
+  std::mutex logMu;
+  std::vector<Handed> log; // hand-over order
+  std::atomic<std::uint64_t> clk{0};
+  const std::thread::id appThread = std::this_thread::get_id();
+  tr->onData([&](SessionId, iora::core::BufferView d, std::chrono::steady_clock::time_point) {
+    {
+      std::lock_guard<std::mutex> lk(logMu);
+      log.push_back(Handed{true, std::string(reinterpret_cast<const char *>(d.data()), d.size())});
+    }
+    if (p.flushCbDelayUs && std::this_thread::get_id() == appThread)
+      std::this_thread::sleep_for(std::chrono::microseconds(p.flushCbDelayUs));
+  });
+  tr->start();
+  SessionId sid = eng->openSession();
+  if (p.startSync) tr->setReadMode(sid, ReadMode::Sync);
+  std::atomic<bool> parking{false};
+
+  std::string arrival;
+  for (auto &x : p.io) arrival += arrivalBytes(0, arrival.size(), x.len);
+
+  struct ChunkStamp
+  {
+    std::uint64_t from, len, s0, s1;
+  };
+  std::vector<ChunkStamp> stamps(p.io.size());
+  std::atomic<std::uint64_t> closeFiredAtNs{0};
+  std::atomic<bool> ioDone{false};
+  auto nowNs = [] {
+    return static_cast<std::uint64_t>(std::chrono::duration_cast<std::chrono::nanoseconds>(
+                                        std::chrono::steady_clock::now().time_since_epoch())
+                                        .count());
+  };
+
+  std::thread io;
+  // the scripted I/O thread; Transport regards it as the engine's I/O thread
+  std::mutex startMu;
+  std::condition_variable startCv;
+  bool go = false;
+  {
+    io = std::thread([&] {
+      {
+        std::unique_lock<std::mutex> lk(startMu);
+        startCv.wait(lk, [&] { return go; });
+      }
+      if (p.perturbSeed && c03_sched_enable) c03_sched_enable(p.perturbSeed * 2 + 1);
+      std::uint64_t off = 0;
+      for (std::size_t i = 0; i < p.io.size(); ++i)
+      {
+        if (p.io[i].delayUs) std::this_thread::sleep_for(std::chrono::microseconds(p.io[i].delayUs));
+        std::unique_ptr<char[]> heap(new char[p.io[i].len]);
+        std::memcpy(heap.get(), arrival.data() + off, p.io[i].len);
+        stamps[i].from = off;
+        stamps[i].len = p.io[i].len;
+        stamps[i].s0 = ++clk;
+        eng->fireData(sid, heap.get(), p.io[i].len);
+        stamps[i].s1 = ++clk;
+        off += p.io[i].len;
+      }
+      if (p.close)
+      {
+        if (p.closeAfterParked)
+        {
+          // hold the close back until the application is (almost certainly) parked in receiveSync
+          for (int i = 0; i < 200000 && !parking.load(); ++i) std::this_thread::sleep_for(std::chrono::microseconds(50));
+          std::this_thread::sleep_for(std::chrono::milliseconds(3));
+        }
+        if (p.closeDelayUs) std::this_thread::sleep_for(std::chrono::microseconds(p.closeDelayUs));
+        eng->fireClose(sid, TransportError::PeerClosed, "peer closed");
+        closeFiredAtNs.store(nowNs());
+      }
+      ioDone.store(true);
+      if (c03_sched_disable) c03_sched_disable();
+    });
+    eng->setIoThreadId(io.get_id());
+    {
+      std::lock_guard<std::mutex> lk(startMu);
+      go = true;
+    }
+    startCv.notify_all();
+  }
+
+  // ---- application thread = this thread
+  struct Window
+  {
+    std::uint64_t b, e;
+  };
+  std::vector<Window> disabledWin;
+  bool inDisabled = false;
+  std::size_t recvLen = 0; // bytes obtained through receiveSync
+  bool overflowSeen = false, eofSeen = false;
+  unsigned nData = 0, nTimeout = 0, nFlushBytes = 0;
+  std::string failSig, failWhat;
+  auto fail = [&](const std::string &sig, const std::string &what) {
+    if (failSig.empty())
+    {
+      failSig = sig;
+      failWhat = what;
+    }
+  };
+  auto handedLenLocked = [&] {
+    std::size_t n = 0;
+    for (auto &h : log) n += h.bytes.size();
+    return n;
+  };
+
+  auto receive = [&](std::size_t len, unsigned tmoMs) -> TransportError
+  {
+    auto t0 = std::chrono::steady_clock::now();
+    std::uint64_t startNs = nowNs();
+    RecvOut out = doReceive(*tr, sid, len, std::chrono::milliseconds{tmoMs});
+    auto el = std::chrono::steady_clock::now() - t0;
+    {
+      // lost wake-up: the call was already in progress when onClose was delivered and still
+      // returned (whatever it returned) more than 1.5 s after it - only its own timeout ended it
+      std::uint64_t cf = closeFiredAtNs.load(), endNs = nowNs();
+      if (!out.ok && cf != 0 && startNs < cf && endNs > cf && endNs - cf > 1500000000ull && failSig.empty())
+      {
+        failSig = "C03/parked-receiver-not-woken-by-close";
+        failWhat = pbt::Fmt() << "receiveSync(timeout " << tmoMs << " ms) was parked when onClose was delivered and returned "
+                              << errName(out.code) << " only " << (endNs - cf) / 1000000 << " ms later (after "
+                              << std::chrono::duration_cast<std::chrono::milliseconds>(el).count() << " ms in the call)";
+        c.failTimed(failSig, failWhat);
+      }
+    }
+    if (out.ok)
+    {
+      if (out.code != TransportError::None || out.lenAfter != out.bytes.size())
+        fail("C03/receive-count-inconsistent", "receiveSync result value, len out-parameter and buffer disagree");
+      if (out.bytes.empty() && len != 0)
+        fail("C03/receive-ok-with-zero-bytes", "receiveSync returned ok(0) for a non-empty caller buffer");
+      {
+        std::lock_guard<std::mutex> lk(logMu);
+        log.push_back(Handed{false, out.bytes});
+      }
+      recvLen += out.bytes.size();
+      ++nData;
+      if (overflowSeen)
+        fail("C03/overflow-not-sticky", "receiveSync returned data after it had reported BufferOverflow");
+      if (eofSeen && !out.bytes.empty())
+        fail("C03/data-after-peer-closed", "receiveSync returned data after it had reported PeerClosed");
+      return TransportError::None;
+    }
+    switch (out.code)
+    {
+    case TransportError::Timeout:
+      ++nTimeout;
+      if (overflowSeen) fail("C03/overflow-not-sticky", "receiveSync returned Timeout after BufferOverflow");
+      break;
+    case TransportError::BufferOverflow:
+      overflowSeen = true;
+      if (p.variant != 2) fail("C03/spurious-overflow", "BufferOverflow reported although the bound (1 MiB) cannot be reached");
+      break;
+    case TransportError::PeerClosed:
+      if (!p.close) fail("C03/spurious-peer-closed", "PeerClosed reported although the engine never closed the session");
+      if (overflowSeen) fail("C03/overflow-not-sticky", "PeerClosed reported after BufferOverflow");
+      if (!eofSeen && (p.variant == 0 || p.variant == 1 || p.variant == 2))
+      {
+        // drain-before-close: everything that arrived before the close must have been handed over
+        std::lock_guard<std::mutex> lk(logMu);
+        std::size_t h = handedLenLocked();
+        if (h != arrival.size())
+          fail(p.variant == 2 ? "C03/overflow-gap-reported-as-clean-eof" : "C03/peer-closed-before-drained",
+               pbt::Fmt() << "PeerClosed reported after " << h << " of " << arrival.size()
+                          << " bytes that arrived before the close had been handed over");
+      }
+      eofSeen = true;
+      break;
+    default:
+      fail("C03/receive-unexpected-error", std::string("receiveSync returned ") + errName(out.code));
+    }
+    return out.code;
+  };
+
+  if (p.perturbSeed && c03_sched_enable) c03_sched_enable(p.perturbSeed * 2);
+  for (auto &a : p.app)
+  {
+    if (!failSig.empty()) break;
+    if (a.kind == 0)
+      receive(a.len, a.tmoMs);
+    else if (a.kind == 1)
+    {
+      if (a.mode == ReadMode::Disabled && !inDisabled)
+      {
+        disabledWin.push_back(Window{++clk, ~0ull});
+        inDisabled = true;
+      }
+      std::size_t before;
+      {
+        std::lock_guard<std::mutex> lk(logMu);
+        before = log.size();
+      }
+      if (!tr->setReadMode(sid, a.mode)) fail("C03/setReadMode-refused", "setReadMode returned false");
+      if (a.mode != ReadMode::Disabled && inDisabled)
+      {
+        disabledWin.back().e = ++clk;
+        inDisabled = false;
+      }
+      if (a.mode == ReadMode::Async)
+      {
+        std::lock_guard<std::mutex> lk(logMu);
+        for (std::size_t i = before; i < log.size(); ++i) nFlushBytes += log[i].bytes.size();
+      }
+    }
+    else
+      std::this_thread::sleep_for(std::chrono::microseconds(a.pauseUs));
+  }
+  // park for the end of the stream: data keeps coming out, then the terminal condition
+  parking.store(true);
+  if (failSig.empty() && p.close && !eofSeen)
+  {
+    for (int guard = 0; guard < 100000 && failSig.empty(); ++guard)
+    {
+      TransportError r = receive(64, 3000);
+      if (r != TransportError::None) break;
+    }
+  }
+  if (c03_sched_disable) c03_sched_disable();
+  io.join();
+  // final drain with timeout 0: whatever is still buffered comes out in order
+  for (int guard = 0; guard < 100000 && failSig.empty(); ++guard)
+  {
+    TransportError r = receive(97, 0);
+    if (r != TransportError::None) break;
+  }
+  eng->setIoThreadId(std::thread::id{});
+
+  // ---- stream oracles over the hand-over log
+  std::string handed;
+  {
+    std::lock_guard<std::mutex> lk(logMu);
+    for (auto &h : log) handed += h.bytes;
+  }
+  if (failSig.empty())
+  {
+    if (p.variant == 3)
+    {
+      // arrival bytes are pairwise different (<= 250 bytes): value == arrival index
+      long last = -1;
+      std::vector<char> seen(arrival.size(), 0);
+      for (unsigned char ch : handed)
+      {
+        if (ch >= arrival.size() || seen[ch])
+        {
+          fail("C03/byte-handed-twice-or-foreign", pbt::Fmt() << "byte #" << int(ch) << " handed twice or never arrived");
+          break;
+        }
+        seen[ch] = 1;
+        if (static_cast<long>(ch) <= last)
+        {
+          fail("C03/hand-over-order-not-arrival-order",
+               pbt::Fmt() << "byte #" << int(ch) << " handed after byte #" << last);
+          break;
+        }
+        last = ch;
+      }
+      if (failSig.empty())
+        for (auto &st : stamps)
+        {
+          bool mayDrop = false;
+          for (auto &w : disabledWin)
+            if (!(st.s1 < w.b || st.s0 > w.e)) mayDrop = true;
+          if (mayDrop) continue;
+          for (std::uint64_t i = st.from; i < st.from + st.len; ++i)
+            if (!seen[i])
+            {
+              fail("C03/byte-lost-outside-disabled",
+                   pbt::Fmt() << "byte #" << i << " arrived while the session was not Disabled and was never handed over");
+              break;
+            }
+          if (!failSig.empty()) break;
+        }
+    }
+    else
+    {
+      bool isPrefix = handed.size() <= arrival.size() && arrival.compare(0, handed.size(), handed) == 0;
+      if (!isPrefix)
+      {
+        std::size_t i = 0;
+        while (i < handed.size() && i < arrival.size() && handed[i] == arrival[i]) ++i;
+        fail(overflowSeen || p.variant == 2 ? "C03/post-overflow-bytes-returned-as-data" : "C03/stream-not-in-arrival-order",
+             pbt::Fmt() << "handed stream deviates from the arrival stream at offset " << i << " (handed " << handed.size()
+                        << " bytes, arrived " << arrival.size() << "): expected [" << pbt::hex(arrival.substr(i, 12))
+                        << "] got [" << pbt::hex(handed.substr(i, 12)) << "]");
+      }
+      else if (handed.size() != arrival.size() && !overflowSeen)
+        fail(p.variant == 2 ? "C03/overflow-gap-not-reported" : "C03/bytes-lost",
+             pbt::Fmt() << handed.size() << " of " << arrival.size()
+                        << " arrived bytes were handed over and no overflow was reported");
+    }
+  }
+  tr.reset();
+
+  pbt::Fmt d;
+  d << "variant=" << p.variant << " cap=" << p.cap << " startSync=" << p.startSync;
+  if (p.closeAfterParked) d << " close-after-parked";
+  if (p.flushCbDelayUs) d << " flushCbDelay=" << p.flushCbDelayUs << "us";
+  if (p.perturbSeed) d << " perturb=" << p.perturbSeed;
+  d << " io:";
+  for (auto &x : p.io) d << " +" << x.delayUs << "us/" << x.len << "B";
+  if (p.close) d << " +" << p.closeDelayUs << "us/close";
+  d << " app:";
+  for (auto &a : p.app)
+  {
+    if (a.kind == 0) d << " R(" << a.len << "," << a.tmoMs << "ms)";
+    else if (a.kind == 1) d << " M(" << modeName(a.mode) << ")";
+    else d << " P(" << a.pauseUs << "us)";
+  }
+  d << " => handed " << handed.size() << "/" << arrival.size() << (overflowSeen ? " overflow" : "") << (eofSeen ? " eof" : "");
+  c.describe(d.str());
+  if (!failSig.empty())
+  {
+    if (!c.failed()) c.fail(failSig, failWhat);
+    return;
+  }
+  c.label(pbt::Fmt() << "variant " << p.variant);
+  if (nData) c.label("receive returned data");
+  if (nTimeout) c.label("receive timed out");
+  if (eofSeen) c.label("PeerClosed after full drain");
+  if (overflowSeen) c.label("BufferOverflow reported");
+  if (nFlushBytes) c.label("flush handed buffered bytes");
+  if (!disabledWin.empty()) c.label("Disabled window");
+  if (p.closeAfterParked && eofSeen) c.label("close delivered to a parked receiver");
+  if (!p.io.empty() && (nData || nFlushBytes))
+  {
+    std::uint64_t h = pbt::hash64(d.str().substr(0, d.str().find(" => ")));
+    c.nontrivial(h);
+  }
+}
+
+static ConcPlan genConc(pbt::Src &src)
+{
+  ConcPlan p;
+  p.variant = static_cast<int>(src.weighted({4, 4, 3, 2}));
+  // known-finding exclusions by construction
+  const bool knownS1 = pbt::isKnown("C03/post-overflow-bytes-returned-as-data");
+  const bool knownS2 = pbt::isKnown("C03/switch-to-async-leaves-buffered-bytes");
+  if (knownS1 && p.variant == 2) p.variant = 0; // no overflow schedules
+  p.cap = p.variant == 2 ? src.oneOf<std::size_t>({8, 64}) : (1u << 20);
+  auto io = src.rows(24, 2, 0, 65535);
+  std::size_t total = 0;
+  for (auto &r : io)
+  {
+    ConcPlan::Io x;
+    x.delayUs = static_cast<unsigned>(r[0] % 4 == 0 ? 0 : r[0] % 300);
+    std::size_t maxLen = p.variant == 2 ? (p.cap == 8 ? 6 : 40) : (p.variant == 3 ? 16 : 200);
+    x.len = 1 + static_cast<std::size_t>(r[1]) % maxLen;
+    if (p.variant == 3 && total + x.len > 250) break;
+    total += x.len;
+    p.io.push_back(x);
+  }
+  p.close = src.coin(2, 3);
+  p.closeDelayUs = static_cast<unsigned>(src.range(0, 300));
+  p.closeAfterParked = p.close && src.coin(1, 5);
+  p.perturbSeed = src.coin(2, 3) ? static_cast<std::uint64_t>(src.range(1, 1 << 20)) : 0;
+  p.flushCbDelayUs = (p.variant == 1 || p.variant == 3) ? src.oneOf<unsigned>({0, 30, 120, 300}) : 0;
+  p.startSync = p.variant == 0 || p.variant == 2 || src.coin();
+  auto app = src.rows(24, 3, 0, 65535);
+  for (auto &r : app)
+  {
+    ConcPlan::App a{};
+    int k = static_cast<int>(r[0] % 10);
+    static const std::size_t lens[] = {1, 3, 8, 64, 1000};
+    static const unsigned tmos[] = {0, 1, 2, 10};
+    bool switching = p.variant == 1 || p.variant == 3;
+    if ((switching ? k < 4 : k < 6) || p.variant == 0 || (p.variant == 2 && k < 8))
+    {
+      a.kind = 0;
+      a.len = lens[static_cast<std::size_t>(r[1]) % 5];
+      a.tmoMs = tmos[static_cast<std::size_t>(r[2]) % 4];
+      if (k >= 8)
+      {
+        a.kind = 2;
+        a.pauseUs = static_cast<unsigned>(r[1] % 400);
+      }
+    }
+    else if (k < 8 && p.variant != 2)
+    {
+      a.kind = 1;
+      int m = static_cast<int>(r[1] % (p.variant == 3 ? 3 : 2));
+      a.mode = m == 0 ? ReadMode::Async : m == 1 ? ReadMode::Sync : ReadMode::Disabled;
+      if (knownS2 && a.mode == ReadMode::Async)
+      {
+        // never enter Async directly from Disabled: go through Sync (which flushes)
+        ReadMode last = p.startSync ? ReadMode::Sync : ReadMode::Async;
+        for (auto &prev : p.app)
+          if (prev.kind == 1) last = prev.mode;
+        if (last == ReadMode::Disabled)
+        {
+          ConcPlan::App viaSync = a;
+          viaSync.mode = ReadMode::Sync;
+          p.app.push_back(viaSync);
+        }
+      }
+    }
+    else
+    {
+      a.kind = 2;
+      a.pauseUs = static_cast<unsigned>(r[1] % 700);
+    }
+    p.app.push_back(a);
+  }
+  return p;
+}
+
+PBT_PROPERTY(conc)
+{
+  ConcPlan p = genConc(src);
+  runConcurrent(c, p);
+}
+
+PBT_REGRESSION(conc_drain_before_close)
+{
+  ConcPlan p;
+  p.variant = 0;
+  p.io = {{0, 100}, {50, 3}, {0, 200}};
+  p.close = true;
+  p.closeDelayUs = 0;
+  p.app = {{0, 8, 10, ReadMode::Sync, 0}, {0, 64, 10, ReadMode::Sync, 0}, {0, 1000, 10, ReadMode::Sync, 0}};
+  runConcurrent(c, p);
+}
+PBT_REGRESSION(conc_close_wakes_parked_receiver)
+{
+  ConcPlan p;
+  p.variant = 0;
+  p.io = {{0, 10}};
+  p.close = true;
+  p.closeAfterParked = true;
+  p.app = {{0, 64, 10, ReadMode::Sync, 0}};
+  runConcurrent(c, p);
+}
+PBT_REGRESSION(conc_overflow_no_hidden_gap)
+{
+  ConcPlan p;
+  p.variant = 2;
+  p.cap = 8;
+  p.io = {{0, 6}, {0, 4}, {0, 2}, {200, 2}};
+  p.close = true;
+  p.closeDelayUs = 100;
+  p.app = {{2, 0, 0, ReadMode::Sync, 2000}, {0, 64, 10, ReadMode::Sync, 0}, {0, 64, 10, ReadMode::Sync, 0}};
+  runConcurrent(c, p);
+}
+
+
+// ============================================================================ e2e
+// Small end-to-end sample through the real TcpEngine: validates what the fake assumes
+// (one I/O thread, data in order, then close) and the drain-before-close path when the
+// last bytes and the FIN arrive together. The peer is a raw POSIX socket.
+#include <arpa/inet.h>
+#include <netinet/in.h>
+#include <poll.h>
+#include <sys/socket.h>
+#include <unistd.h>
+
+PBT_PROPERTY(e2e)
+{
+  pbt::watchdog(90, "C03/e2e-case-stuck");
+  quietLogs();
+  // ---- plan
+  auto chunks = src.rows(12, 2, 0, 65535);
+  std::size_t readChunk = src.oneOf<std::size_t>({5, 64, 4096, 65536});
+  auto appOps = src.rows(10, 3, 0, 65535);
+  bool switchModes = src.coin(1, 3);
+  std::string stream;
+  std::vector<std::pair<unsigned, std::size_t>> sendPlan;
+  for (auto &r : chunks)
+  {
+    std::size_t len = 1 + static_cast<std::size_t>(r[1]) % 700;
+    sendPlan.emplace_back(static_cast<unsigned>(r[0] % 3 == 0 ? 0 : r[0] % 400), len);
+    stream += arrivalBytes(0, stream.size(), len);
+  }
+  unsigned finDelayUs = static_cast<unsigned>(src.range(0, 300));
+
+  // ---- raw peer
+  int lfd = ::socket(AF_INET, SOCK_STREAM | SOCK_CLOEXEC, 0);
+  sockaddr_in a{};
+  a.sin_family = AF_INET;
+  a.sin_addr.s_addr = htonl(INADDR_LOOPBACK);
+  if (lfd < 0 || ::bind(lfd, reinterpret_cast<sockaddr *>(&a), sizeof a) != 0 || ::listen(lfd, 4) != 0)
+  {
+    if (lfd >= 0) ::close(lfd);
+    c.inconclusive("raw listener setup failed");
+    return;
+  }
+  socklen_t al = sizeof a;
+  ::getsockname(lfd, reinterpret_cast<sockaddr *>(&a), &al);
+  std::uint16_t port = ntohs(a.sin_port);
+  std::atomic<bool> peerFailed{false};
+  std::atomic<std::uint64_t> finSentNs{0};
+  auto nowNs = [] {
+    return static_cast<std::uint64_t>(
+      std::chrono::duration_cast<std::chrono::nanoseconds>(std::chrono::steady_clock::now().time_since_epoch()).count());
+  };
+  std::thread peer([&] {
+    pollfd pf{lfd, POLLIN, 0};
+    if (::poll(&pf, 1, 20000) <= 0)
+    {
+      peerFailed.store(true);
+      return;
+    }
+    int fd = ::accept4(lfd, nullptr, nullptr, SOCK_CLOEXEC);
+    if (fd < 0)
+    {
+      peerFailed.store(true);
+      return;
+    }
+    std::size_t off = 0;
+    for (auto &sp : sendPlan)
+    {
+      if (sp.first) std::this_thread::sleep_for(std::chrono::microseconds(sp.first));
+      std::size_t done = 0;
+      while (done < sp.second)
+      {
+        ssize_t n = ::send(fd, stream.data() + off + done, sp.second - done, MSG_NOSIGNAL);
+        if (n <= 0)
+        {
+          peerFailed.store(true);
+          ::close(fd);
+          return;
+        }
+        done += static_cast<std::size_t>(n);
+      }
+      off += sp.second;
+    }
+    if (finDelayUs) std::this_thread::sleep_for(std::chrono::microseconds(finDelayUs));
+    ::shutdown(fd, SHUT_WR); // FIN after the last byte
+    finSentNs.store(nowNs());
+    char buf[64];
+    pollfd rp{fd, POLLIN, 0};
+    // wait (bounded) for the other side to go away so that close() does not reset unread data
+    for (int i = 0; i < 200; ++i)
+    {
+      if (::poll(&rp, 1, 50) > 0 && ::recv(fd, buf, sizeof buf, 0) <= 0) break;
+    }
+    ::close(fd);
+  });
+
+  net::TransportConfig cfg;
+  cfg.ioReadChunk = readChunk;
+  auto tr = net::Transport::tcp(cfg);
+  std::mutex logMu;
+  std::string handed;
+  std::size_t viaCb = 0;
+  tr->onData([&](SessionId, iora::core::BufferView d, std::chrono::steady_clock::time_point) {
+    std::lock_guard<std::mutex> lk(logMu);
+    handed.append(reinterpret_cast<const char *>(d.data()), d.size());
+    viaCb += d.size();
+  });
+  std::string failSig, failWhat;
+  bool timed = false;
+  bool eof = false;
+  if (!tr->start().isOk())
+  {
+    peer.join();
+    ::close(lfd);
+    c.inconclusive("transport did not start");
+    return;
+  }
+  auto cr = tr->connectSync("127.0.0.1", port, net::TlsMode::None, std::chrono::milliseconds{10000});
+  if (!cr.isOk())
+  {
+    tr->stop();
+    peer.join();
+    ::close(lfd);
+    c.inconclusive("connect to the raw peer failed");
+    return;
+  }
+  SessionId sid = cr.value();
+  tr->setReadMode(sid, ReadMode::Sync);
+  auto receive = [&](std::size_t len, unsigned tmoMs) -> TransportError
+  {
+    RecvOut out = doReceive(*tr, sid, len, std::chrono::milliseconds{tmoMs});
+    if (out.ok)
+    {
+      std::lock_guard<std::mutex> lk(logMu);
+      handed += out.bytes;
+      if (eof && failSig.empty())
+      {
+        failSig = "C03/data-after-peer-closed";
+        failWhat = "receiveSync returned data after PeerClosed";
+      }
+      return TransportError::None;
+    }
+    if (out.code == TransportError::PeerClosed && !eof)
+    {
+      eof = true;
+      std::lock_guard<std::mutex> lk(logMu);
+      if (handed.size() != stream.size() && failSig.empty())
+      {
+        failSig = "C03/peer-closed-before-drained";
+        failWhat = pbt::Fmt() << "real engine: PeerClosed reported after " << handed.size() << " of " << stream.size()
+                              << " bytes the peer had sent before its FIN";
+      }
+    }
+    else if (out.code == TransportError::Timeout && tmoMs >= 3000)
+    {
+      std::uint64_t fs = finSentNs.load();
+      if (fs && nowNs() - fs > 2500000000ull && failSig.empty())
+      {
+        failSig = "C03/e2e-eof-not-reported";
+        failWhat = "receiveSync(3 s) timed out although the peer had sent FIN more than 2.5 s earlier";
+        timed = true;
+      }
+    }
+    else if (out.code != TransportError::Timeout && out.code != TransportError::PeerClosed && failSig.empty())
+    {
+      failSig = "C03/receive-unexpected-error";
+      failWhat = std::string("real engine: receiveSync returned ") + errName(out.code);
+    }
+    return out.code;
+  };
+  static const std::size_t lens[] = {1, 3, 8, 64, 1000, 70000};
+  static const unsigned tmos[] = {0, 1, 2, 10};
+  for (auto &r : appOps)
+  {
+    if (!failSig.empty() || eof) break;
+    int k = static_cast<int>(r[0] % 8);
+    if (switchModes && k >= 6)
+      tr->setReadMode(sid, k == 6 ? ReadMode::Async : ReadMode::Sync);
+    else
+      receive(lens[static_cast<std::size_t>(r[1]) % 6], tmos[static_cast<std::size_t>(r[2]) % 4]);
+  }
+  tr->setReadMode(sid, ReadMode::Sync); // (a no-op after the close: the late receives below still drain)
+  for (int guard = 0; guard < 100000 && failSig.empty() && !eof; ++guard)
+  {
+    TransportError r = receive(97, 3000);
+    if (r != TransportError::None) break;
+  }
+  peer.join();
+  tr->stop();
+  ::close(lfd);
+  c.describe(pbt::Fmt() << "e2e chunks=" << sendPlan.size() << " bytes=" << stream.size() << " ioReadChunk=" << readChunk
+                        << " finDelay=" << finDelayUs << "us switchModes=" << switchModes << " appOps=" << appOps.size()
+                        << " => handed " << handed.size() << " (callback " << viaCb << ")" << (eof ? " eof" : ""));
+  if (peerFailed.load())
+  {
+    c.inconclusive("raw peer could not deliver its script");
+    return;
+  }
+  if (failSig.empty())
+  {
+    bool prefix = handed.size() <= stream.size() && stream.compare(0, handed.size(), handed) == 0;
+    if (!prefix)
+    {
+      failSig = "C03/stream-not-in-arrival-order";
+      failWhat = "real engine: handed bytes are not a prefix of what the peer sent";
+    }
+    else if (eof && handed.size() != stream.size())
+    {
+      failSig = "C03/bytes-lost";
+      failWhat = pbt::Fmt() << "real engine: " << handed.size() << " of " << stream.size() << " bytes handed over";
+    }
+  }
+  if (!failSig.empty())
+  {
+    if (timed) c.failTimed(failSig, failWhat);
+    else c.fail(failSig, failWhat);
+    return;
+  }
+  if (eof) c.label("e2e: PeerClosed after full drain");
+  if (viaCb) c.label("e2e: bytes through the callback");
+  if (!stream.empty() && eof) c.nontrivial(pbt::hashMix(pbt::hash64(stream), pbt::hashMix(readChunk, appOps.size())));
 }
 
 // op rows: {opcode, session, a, b}; opcodes 0-7 Deliver(len from a), 8-13 Receive(lens[a]),
